@@ -979,3 +979,262 @@ Proof.
   split; intros Hd; apply (nodupb_NoDup N.eqb N_eqb_eq') in Hd;
     (eapply name_fold_first_occurrence; [exact Hd| |eassumption]); apply raws_reserved.
 Qed.
+
+(* ================================================================================================ *)
+(* G. clean content: autocorrect changes nothing (except the bookkeeping field reserved)            *)
+(* ================================================================================================ *)
+Lemma pm_false_reserved R m line :
+  parse_metadata false (set_reserved m R) line = rmap (fun x => set_reserved x R) (parse_metadata false m line).
+Proof.
+  unfold parse_metadata.
+  repeat match goal with
+  | |- (if startswith (lit ?k) line then _ else _) = _ =>
+    destruct (startswith (lit k) line);
+    [first [reflexivity | destruct (py_int _); reflexivity
+           | destruct (match_name alt_name_prefix line) as [[? ?]|]; reflexivity] | ]
+  end.
+  reflexivity.
+Qed.
+
+Definition fresh_name (d : list (N * text)) (line : text) : Prop :=
+  match match_name alt_name_prefix line with
+  | Some p => tmem (snd p) (values d) = false
+  | None => True
+  end.
+
+Lemma pm_true_false m line : fresh_name (alt_names m) line ->
+  parse_metadata true m line = parse_metadata false m line.
+Proof.
+  unfold fresh_name. intros Hc. unfold parse_metadata.
+  repeat match goal with
+  | |- (if startswith (lit ?k) line then _ else _) = _ =>
+    destruct (startswith (lit k) line); [reflexivity | ]
+  end.
+  destruct (startswith (lit "# ALTERNATIVE NAME") line); [|reflexivity].
+  destruct (match_name alt_name_prefix line) as [[alt nm]|]; [|reflexivity].
+  cbn [snd] in Hc. unfold corrected_name. rewrite Hc. reflexivity.
+Qed.
+
+Definition lift_o (R : list text) (x : (meta * N) * list text) : (meta * N) * list text :=
+  ((set_reserved (fst (fst x)) R, snd (fst x)), snd x).
+
+Lemma ord_step_clean R st line : fresh_name (alt_names (fst st)) line ->
+  OrdIO.header_step true (set_reserved (fst st) R, snd st) line
+  = rmap (fun s => (set_reserved (fst s) R, snd s)) (OrdIO.header_step false st line).
+Proof.
+  intros Hf. unfold OrdIO.header_step. cbn [fst snd]. destruct (startswith OrdIO.nuo_prefix line).
+  - destruct (py_int (drop 23 line)); reflexivity.
+  - rewrite pm_true_false by exact Hf. rewrite pm_false_reserved.
+    destruct (parse_metadata false (fst st) line); reflexivity.
+Qed.
+
+(* the names still to come are pairwise distinct and none of them is a current value *)
+Definition clean_inv (d : list (N * text)) (raws : list (N * text)) : Prop :=
+  NoDup (map snd raws) /\ forall v, In v (values d) -> ~ In v (map snd raws).
+
+Lemma clean_inv_step prefix line d d' rest :
+  names_effect false [] prefix line d d' \/ (exists resv, names_effect false resv prefix line d d') ->
+  clean_inv d ((match match_name prefix line with Some p => [p] | None => [] end) ++ rest) ->
+  clean_inv d' rest.
+Proof.
+  intros He [Hnd Hdis].
+  assert (He' : exists resv, names_effect false resv prefix line d d') by (destruct He; eauto).
+  clear He. destruct He' as (resv & He). unfold names_effect in He.
+  destruct (match_name prefix line) as [[a nm]|]; cbn [app] in *.
+  - unfold name_step, corrected_name in He. cbn [andb fst snd rmap] in He. injection He as <-.
+    cbn [map snd] in Hnd, Hdis. inversion Hnd as [|? ? Hn Hnd']; subst. split; [exact Hnd'|].
+    intros v Hv. apply values_set_in in Hv as [->|Hv]; [exact Hn|].
+    intros Hin. apply (Hdis v Hv). now right.
+  - subst d'. split; assumption.
+Qed.
+
+Lemma clean_inv_fresh prefix line d rest :
+  prefix = alt_name_prefix ->
+  clean_inv d ((match match_name prefix line with Some p => [p] | None => [] end) ++ rest) -> fresh_name d line.
+Proof.
+  intros -> [_ Hdis]. unfold fresh_name. destruct (match_name alt_name_prefix line) as [[a nm]|]; [|exact I].
+  cbn [snd app map] in *. destruct (tmem nm (values d)) eqn:E; [|reflexivity].
+  apply tmem_In in E. exfalso. apply (Hdis nm E). now left.
+Qed.
+
+Lemma ord_header_clean R lines : forall st,
+  clean_inv (alt_names (fst st)) (raw_names alt_name_prefix lines) ->
+  OrdIO.header_loop true (set_reserved (fst st) R, snd st) lines = rmap (lift_o R) (OrdIO.header_loop false st lines).
+Proof.
+  induction lines as [|l r IH]; intros st Hinv.
+  - destruct st. reflexivity.
+  - rewrite raw_names_cons in Hinv. cbn [OrdIO.header_loop]. unfold is_header in Hinv. change OrdIO.hash with hash.
+    destruct (startswith hash (strip l)).
+    + rewrite ord_step_clean by (eapply clean_inv_fresh; [reflexivity|exact Hinv]).
+      destruct (OrdIO.header_step false st (strip l)) as [st1|e] eqn:E1; cbn [rmap rbind]; [|reflexivity].
+      destruct r as [|l2 r2]; [reflexivity|].
+      change (set_reserved (fst st1) R, snd st1) with (set_reserved (fst (st1)) R, snd (st1)).
+      apply IH. destruct (ord_header_step_names _ _ _ _ E1) as [_ Hn].
+      eapply clean_inv_step; [right; eexists; exact Hn|exact Hinv].
+    + destruct st. reflexivity.
+Qed.
+
+Lemma set_counts_id m R :
+  set_reserved (set_num_voters (set_num_alternatives (set_reserved m R) (num_alternatives m)) (num_voters m)) []
+  = set_reserved m [].
+Proof. destruct m. reflexivity. Qed.
+
+Theorem ac_clean_noop_ord m0 lines : alt_names m0 = [] -> ord_clean m0 lines = true ->
+  rmap forget_reserved_o (OrdIO.ord_parse true false m0 lines)
+  = rmap forget_reserved_o (OrdIO.ord_parse false false m0 lines).
+Proof.
+  intros H0 Hc. unfold ord_clean in Hc. apply andb_true_iff in Hc as [Hc Hcnt]. apply andb_true_iff in Hc as [Hn Hb].
+  apply (nodupb_NoDup teqb teqb_eq) in Hn. apply (nodupb_NoDup OrdIO.order_eqb order_eqb_eq) in Hb.
+  unfold ord_counts_ok in Hcnt. revert Hcnt. unfold OrdIO.ord_parse.
+  pose proof (ord_header_clean (reserved_of alt_name_prefix lines) lines (m0, 0%N)) as HH. cbn [fst snd] in HH.
+  rewrite HH by (split; [exact Hn|rewrite H0; intros v []]). clear HH.
+  destruct (OrdIO.header_loop false (m0, 0%N) lines) as [[[m nu] rest]|e] eqn:EH; cbn [rmap rbind lift_o fst snd]; [|reflexivity].
+  pose proof (ord_header_rest _ _ _ _ _ EH) as ->.
+  rewrite !ord_ballot_loop_fold. unfold ord_ballots in Hb.
+  destruct (ord_ballots_r (body_lines lines)) as [bs|e] eqn:EB; cbn [rmap rbind get] in *; [|reflexivity].
+  rewrite (fold_left_ext _ _ bs ord_add_true), (fold_left_ext _ _ bs ord_add_false).
+  rewrite (fold_gadd_padd OrdIO.order_eqb order_eqb_eq bs ([], [])) by (cbn; [reflexivity|exact Hb] || (try reflexivity; exact Hb)).
+  destruct (fold_left (padd OrdIO.order_eqb) bs ([], [])) as [ords mu]. cbn [rmap].
+  intros Hcnt. cbn [OrdIO.o_meta OrdIO.o_mult OrdIO.o_orders OrdIO.o_num_unique] in Hcnt.
+  apply andb_true_iff in Hcnt as [Hcnt H3]. apply andb_true_iff in Hcnt as [H1 H2].
+  apply N.eqb_eq in H1, H2, H3. unfold forget_reserved_o. cbn [OrdIO.o_meta OrdIO.o_mult OrdIO.o_orders OrdIO.o_num_unique].
+  change (alt_names (set_reserved m (reserved_of alt_name_prefix lines))) with (alt_names m).
+  change OrdIO.sum_N with sum_N. rewrite <- H1, <- H2, <- H3, set_counts_id. reflexivity.
+Qed.
+
+(* ---- categorical ---- *)
+Definition fresh_p (prefix : text) (d : list (N * text)) (line : text) : Prop :=
+  match match_name prefix line with
+  | Some p => tmem (snd p) (values d) = false
+  | None => True
+  end.
+
+Lemma clean_inv_fresh_p prefix line d rest :
+  clean_inv d ((match match_name prefix line with Some p => [p] | None => [] end) ++ rest) -> fresh_p prefix d line.
+Proof.
+  intros [_ Hdis]. unfold fresh_p. destruct (match_name prefix line) as [[a nm]|]; [|exact I].
+  cbn [snd app map] in *. destruct (tmem nm (values d)) eqn:E; [|reflexivity].
+  apply tmem_In in E. exfalso. apply (Hdis nm E). now left.
+Qed.
+
+Definition lift_c (R : list text) (i : CatIO.cinst) : CatIO.cinst :=
+  CatIO.set_c_meta i (set_reserved (CatIO.c_meta i) R).
+
+Definition chain2 (au : bool) (resv : list text) (i1 : CatIO.cinst) (line : text) : result CatIO.cinst :=
+  if startswith (lit "# NUMBER CATEGORIES") line
+  then rmap (CatIO.set_c_num_categories i1) (py_int (drop 20 line))
+  else if startswith (lit "# CATEGORY NAME") line then
+    match match_name cat_name_prefix line with
+    | Some (cat, nm) =>
+      rmap (fun nm' => CatIO.set_c_cat_names i1 (assoc_set N.eqb cat nm' (CatIO.c_cat_names i1)))
+           (corrected_name au nm (values (CatIO.c_cat_names i1)) resv)
+    | None => Ok i1
+    end
+  else rmap (CatIO.set_c_meta i1) (parse_metadata au (CatIO.c_meta i1) line).
+
+Lemma header_line_chain au resv i line :
+  CatIO.header_line au resv i line =
+  rbind (if startswith (lit "# NUMBER UNIQUE PREFERENCES") line
+         then rmap (CatIO.set_c_num_unique i) (py_int (drop 28 line)) else Ok i)
+        (fun i1 => chain2 au resv i1 line).
+Proof. reflexivity. Qed.
+
+Lemma chain2_clean R Rc i1 line :
+  fresh_p alt_name_prefix (alt_names (CatIO.c_meta i1)) line -> fresh_p cat_name_prefix (CatIO.c_cat_names i1) line ->
+  chain2 true Rc (lift_c R i1) line = rmap (lift_c R) (chain2 false [] i1 line).
+Proof.
+  intros Ha Hc. unfold chain2. destruct (startswith (lit "# NUMBER CATEGORIES") line).
+  - destruct (py_int (drop 20 line)); reflexivity.
+  - destruct (startswith (lit "# CATEGORY NAME") line).
+    + unfold fresh_p in Hc. destruct (match_name cat_name_prefix line) as [[cat nm]|]; [|reflexivity].
+      cbn [snd] in Hc. unfold corrected_name. cbn [andb].
+      change (CatIO.c_cat_names (lift_c R i1)) with (CatIO.c_cat_names i1). rewrite Hc. reflexivity.
+    + change (CatIO.c_meta (lift_c R i1)) with (set_reserved (CatIO.c_meta i1) R).
+      rewrite pm_true_false by exact Ha. rewrite pm_false_reserved.
+      destruct (parse_metadata false (CatIO.c_meta i1) line); reflexivity.
+Qed.
+
+Lemma cat_line_clean R Rc i line :
+  fresh_p alt_name_prefix (alt_names (CatIO.c_meta i)) line -> fresh_p cat_name_prefix (CatIO.c_cat_names i) line ->
+  CatIO.header_line true Rc (lift_c R i) line = rmap (lift_c R) (CatIO.header_line false [] i line).
+Proof.
+  intros Ha Hc. rewrite !header_line_chain. destruct (startswith (lit "# NUMBER UNIQUE PREFERENCES") line).
+  - destruct (py_int (drop 28 line)) as [n|e]; cbn [rmap rbind]; [|reflexivity].
+    change (CatIO.set_c_num_unique (lift_c R i) n) with (lift_c R (CatIO.set_c_num_unique i n)).
+    apply chain2_clean; assumption.
+  - cbn [rbind]. apply chain2_clean; assumption.
+Qed.
+
+Definition lift_cl (R : list text) (x : CatIO.cinst * list text) : CatIO.cinst * list text := (lift_c R (fst x), snd x).
+
+Lemma cat_header_clean R Rc lines : forall i,
+  clean_inv (alt_names (CatIO.c_meta i)) (raw_names alt_name_prefix lines) ->
+  clean_inv (CatIO.c_cat_names i) (raw_names cat_name_prefix lines) ->
+  CatIO.header_loop true Rc (lift_c R i) lines = rmap (lift_cl R) (CatIO.header_loop false [] i lines).
+Proof.
+  induction lines as [|l r IH]; intros i Hia Hic.
+  - reflexivity.
+  - rewrite raw_names_cons in Hia, Hic. cbn [CatIO.header_loop]. unfold is_header in Hia, Hic.
+    change CatIO.hash_prefix with hash.
+    destruct (startswith hash (strip l)); [|reflexivity].
+    rewrite cat_line_clean by (eapply clean_inv_fresh_p; eassumption).
+    destruct (CatIO.header_line false [] i (strip l)) as [i1|e] eqn:E1; cbn [rmap rbind]; [|reflexivity].
+    destruct r as [|l2 r2]; [reflexivity|].
+    destruct (cat_header_line_names _ _ _ _ _ E1) as (_ & Hna & Hnc).
+    apply IH; (eapply clean_inv_step; [right; eexists; eassumption|eassumption]).
+Qed.
+
+Theorem ac_clean_noop_cat m0 lines : alt_names m0 = [] -> cat_clean m0 lines = true ->
+  rmap forget_reserved_c (CatIO.cat_parse true false m0 lines)
+  = rmap forget_reserved_c (CatIO.cat_parse false false m0 lines).
+Proof.
+  intros H0 Hc. unfold cat_clean in Hc. apply andb_true_iff in Hc as [Hc Hcnt]. apply andb_true_iff in Hc as [Hc Hb].
+  apply andb_true_iff in Hc as [Hna Hnc].
+  apply (nodupb_NoDup teqb teqb_eq) in Hna, Hnc. apply (nodupb_NoDup CatIO.ballot_eqb ballot_eqb_eq) in Hb.
+  unfold cat_counts_ok in Hcnt. revert Hcnt. unfold CatIO.cat_parse.
+  destruct (teqb (data_type m0) (lit "cat")); [|reflexivity].
+  unfold CatIO.cat_parse_body.
+  pose proof (cat_header_clean (reserved_of alt_name_prefix lines) (reserved_of cat_name_prefix lines) lines (CatIO.cinst0 m0)) as HH.
+  change (lift_c (reserved_of alt_name_prefix lines) (CatIO.cinst0 m0))
+    with (CatIO.cinst0 (set_reserved m0 (reserved_of alt_name_prefix lines))) in HH.
+  rewrite HH; clear HH.
+  2:{ cbn [CatIO.cinst0 CatIO.c_meta]. rewrite H0. split; [exact Hna|intros v []]. }
+  2:{ cbn [CatIO.cinst0 CatIO.c_cat_names]. split; [exact Hnc|intros v []]. }
+  destruct (CatIO.header_loop false [] (CatIO.cinst0 m0) lines) as [[i1 rest]|e] eqn:EH; cbn [rmap rbind lift_cl fst snd]; [|reflexivity].
+  destruct (cat_header_rest _ _ _ _ _ _ EH) as [-> Hp].
+  rewrite !cat_ballot_loop_fold. unfold cat_ballots in Hb.
+  destruct (cat_ballots_r (body_lines lines)) as [bs|e] eqn:EB; cbn [rmap rbind get] in *; [|reflexivity].
+  rewrite (cat_fold_proj _ _ cat_add_true), (cat_fold_proj _ _ cat_add_false).
+  change (cproj (lift_c (reserved_of alt_name_prefix lines) i1)) with (cproj i1). rewrite Hp.
+  change (cproj (CatIO.cinst0 m0)) with (@nil CatIO.ballot, @nil (CatIO.ballot * N)).
+  rewrite <- (fold_gadd_padd CatIO.ballot_eqb ballot_eqb_eq bs ([], [])) by (try reflexivity; exact Hb).
+  destruct (merge_fold_spec CatIO.ballot_eqb ballot_eqb_eq bs) as [Hf _]. rewrite Hf.
+  assert (Hnd : NoDup (distinct CatIO.ballot_eqb (map snd bs))) by (apply distinct_NoDup; exact ballot_eqb_eq).
+  intros Hcnt. unfold cput in *. cbn [fst snd] in *.
+  cbn [CatIO.set_c_ballots CatIO.c_meta CatIO.c_mult CatIO.c_prefs CatIO.c_num_unique] in Hcnt.
+  apply andb_true_iff in Hcnt as [Hcnt H3]. apply andb_true_iff in Hcnt as [H1 H2].
+  apply N.eqb_eq in H1, H2, H3.
+  unfold forget_reserved_c, CatIO.recompute, lift_c.
+  cbn [CatIO.set_c_ballots CatIO.set_c_meta CatIO.set_c_num_unique CatIO.c_meta CatIO.c_mult CatIO.c_prefs
+       CatIO.c_num_unique CatIO.c_num_categories CatIO.c_cat_names].
+  change (alt_names (set_reserved (CatIO.c_meta i1) (reserved_of alt_name_prefix lines))) with (alt_names (CatIO.c_meta i1)).
+  change CatIO.sum_N with sum_N. rewrite (dedup_id _ Hnd), <- H1, <- H2, <- H3, set_counts_id. reflexivity.
+Qed.
+
+(* ================================================================================================ *)
+(* H. the hypothesis "ids pairwise distinct" of ac_first_occurrence cannot be dropped               *)
+(* ================================================================================================ *)
+Definition dup_id_lines : list text :=
+  [lit "# ALTERNATIVE NAME 1: X"; lit "# ALTERNATIVE NAME 1: X"; lit "1: 1"].
+
+Theorem ac_first_occurrence_dup_id_refuted :
+  exists m0 lines i, alt_names m0 = [] /\ OrdIO.ord_parse true false m0 lines = Ok i /\
+    alt_names (OrdIO.o_meta i) = [(1%N, lit "X__1")] /\
+    ~ first_occurrence_spec (raw_names alt_name_prefix lines) (alt_names (OrdIO.o_meta i)).
+Proof.
+  exists (meta0 (lit "soc")), dup_id_lines.
+  destruct (OrdIO.ord_parse true false (meta0 (lit "soc")) dup_id_lines) as [i|e] eqn:E; vm_compute in E; [|discriminate].
+  injection E as <-. eexists. split; [reflexivity|]. split; [reflexivity|]. split; [reflexivity|].
+  intros [_ H]. specialize (H [] 1%N (lit "X") [(1%N, lit "X")] eq_refl) as [H _].
+  specialize (H (fun x => x)). vm_compute in H. discriminate.
+Qed.
